@@ -142,7 +142,8 @@ func HarnessC20() {
 	zzvrt.Assume(zzvrt.And(zzvrt.DIs(d, "amount", zzvrt.KNumber), zzvrt.DIsInt(d, "amount")))
 	zzvrt.Assume(zzvrt.DIs(d, "tag", zzvrt.KObject))
 	zzvrt.Assume(zzvrt.Or(zzvrt.DIs(d, "tag/code", zzvrt.KAbsent), zzvrt.DIs(d, "tag/code", zzvrt.KString)))
-	zzvrt.Assume(zzvrt.DIs(d, "tag/id", zzvrt.KAbsent))
+	// (the other document's Base has a member id: present or not, it means nothing here)
+	zzvrt.Assume(zzvrt.Or(zzvrt.DIs(d, "tag/id", zzvrt.KAbsent), zzvrt.And(zzvrt.DIs(d, "tag/id", zzvrt.KNumber), zzvrt.DIsInt(d, "tag/id"))))
 	_, accepted, ok := zzRunT("C20", hMoney, moneyRoot, "json", d)
 	if !ok {
 		return
@@ -151,4 +152,6 @@ func HarnessC20() {
 	valid := zzvrt.And(zzvrt.DIs(d, "tag/code", zzvrt.KString), len(s) >= mn)
 	zzvrt.Assume(zzvrt.Iff(len(s) >= mn, zzvrt.RuneLen(s) >= mn)) // outside the byte/rune finding
 	zzvrt.Check("C10.ref-keeps-its-document-meaning", zzvrt.Iff(accepted, valid))
+	// C04: `code` is required by money.json's Base, which Money composes through allOf/$ref
+	zzvrt.Check("C04.multi-doc.required-through-allOf-ref-branch", zzvrt.Implies(zzvrt.DIs(d, "tag/code", zzvrt.KAbsent), zzvrt.Not(accepted)))
 }
